@@ -21,7 +21,6 @@ Proof.
   destruct (classify s) as [[n|n d|n d]|]; try destruct (n <? 2 ^ 63); split; intros H; try discriminate; reflexivity.
 Qed.
 
-Definition ascii (l : list Z) := l.
 Lemma hex_2p63_refuted : exists s, num_model s <> num_spec s.
 Proof. (* 0x8000000000000401 *)
   exists [48;120;56;48;48;48;48;48;48;48;48;48;48;48;48;52;48;49]. vm_compute. discriminate.
@@ -88,14 +87,40 @@ Proof.
   end. discriminate.
 Qed.
 
-(* otto's parseStringLiteral with its three deviations repaired IS the SV function of
-   ES5 7.8.4 / B.1.2, on every string-literal body of the grammar *)
-Lemma sv_repaired_is_spec : forall n s v, sv_spec n s = Some v -> sv_gen true true true n s = Some v.
+Definition okv (fs : bool) (v : list Z) : Prop := fs = true \/ Forall nonsurr v.
+
+Lemma okv_app fs u l : okv fs (u ++ l) -> okv fs l.
+Proof. intros [H|H]; [now left|right]. apply Forall_app in H. tauto. Qed.
+
+Lemma write_rune_small fs w : 0 <= w < 55296 -> write_rune fs w = [w].
 Proof.
-  induction n as [|n IH]; intros s v H; [exact H|].
-  assert (CONS : forall u r w, match sv_spec n r with Some l => Some (u ++ l) | None => None end = Some w ->
-                 match sv_gen true true true n r with Some l => Some (u ++ l) | None => None end = Some w).
-  { intros u r w Hc. destruct (sv_spec n r) as [l|] eqn:E; [|discriminate]. now rewrite (IH _ _ E). }
+  intros H. unfold write_rune.
+  replace (55296 <=? w) with false by (symmetry; apply Z.leb_gt; lia).
+  rewrite andb_false_r. cbn [andb]. apply small_unit. lia.
+Qed.
+
+Lemma write_rune_ok fs w : 0 <= w < 65536 -> fs = true \/ nonsurr w -> write_rune fs w = [w].
+Proof.
+  intros Hw [->|Hn]; unfold write_rune; [cbn [negb andb]; now apply small_unit|].
+  destruct (negb fs && (55296 <=? w) && (w <=? 57343)) eqn:E; [|now apply small_unit].
+  apply andb_true_iff in E as [E E2]. apply andb_true_iff in E as [_ E1].
+  apply Z.leb_le in E1, E2. unfold nonsurr in Hn. lia.
+Qed.
+
+(* otto's parseStringLiteral computes the SV of ES5 7.8.4 / B.1.2 for every string-literal body
+   whose value holds no surrogate code unit (all escapes, octal escapes, every LineContinuation);
+   with the one remaining deviation switched off, for every body at all *)
+Lemma sv_gen_is_spec fs : forall n s v, sv_spec n s = Some v -> okv fs v -> sv_gen fs n s = Some v.
+Proof.
+  induction n as [|n IH]; intros s v H OK; [exact H|].
+  assert (CONS : forall u r w, match sv_spec n r with Some l => Some (u ++ l) | None => None end = Some w -> okv fs w ->
+                 match sv_gen fs n r with Some l => Some (u ++ l) | None => None end = Some w).
+  { intros u r w Hc Hw. destruct (sv_spec n r) as [l|] eqn:E; [|discriminate].
+    injection Hc as <-. now rewrite (IH _ _ E (okv_app _ _ _ Hw)). }
+  assert (HEAD : forall x r w, match sv_spec n r with Some l => Some ([x] ++ l) | None => None end = Some w -> okv fs w ->
+                 fs = true \/ nonsurr x).
+  { intros x r w Hc [Hw|Hw]; [now left|right]. destruct (sv_spec n r); [|discriminate].
+    injection Hc as <-. now inversion Hw. }
   cbn [sv_spec] in H. cbn [sv_gen].
   destruct s as [|c0 r0]; [exact H|].
   destruct (Z.eq_dec c0 92) as [->|Hne].
@@ -104,22 +129,21 @@ Proof.
     { intros. destruct c0 as [|p|p]; try reflexivity.
       do 7 (destruct p as [p|p|]; try reflexivity). exfalso; apply Hne; reflexivity. }
     destruct r0 as [|c1 r1].
-    - rewrite Hs in H |- *. destruct (is_lt c0); [discriminate|]. (first [now apply CONS | exact (CONS [] _ _ H)]).
-    - rewrite Hs in H |- *. destruct (is_lt c0); [discriminate|]. (first [now apply CONS | exact (CONS [] _ _ H)]). }
+    - rewrite Hs in H |- *. destruct (is_lt c0); [discriminate|]. now apply CONS.
+    - rewrite Hs in H |- *. destruct (is_lt c0); [discriminate|]. now apply CONS. }
   destruct r0 as [|c r]; [exact H|].
-  cbn [andb].
   destruct (is_lt c) eqn:Elt.
   - (* line continuation *)
     apply is_lt_cases in Elt as [->|[->|[->| ->]]]; cbn in H |- *.
-    + (first [now apply CONS | exact (CONS [] _ _ H)]).
-    + destruct r as [|c2 r2]; [(first [now apply CONS | exact (CONS [] _ _ H)])|].
-      destruct (Z.eq_dec c2 10) as [->|N2]; [(first [now apply CONS | exact (CONS [] _ _ H)])|].
+    + exact (CONS [] _ _ H OK).
+    + destruct r as [|c2 r2]; [exact (CONS [] _ _ H OK)|].
+      destruct (Z.eq_dec c2 10) as [->|N2]; [exact (CONS [] _ _ H OK)|].
       assert (Hs : forall X Y : option (list Z), match c2 with 10 => X | _ => Y end = Y).
       { intros. destruct c2 as [|p|p]; try reflexivity.
         do 4 (destruct p as [p|p|]; try reflexivity). exfalso; apply N2; reflexivity. }
-      rewrite Hs in H |- *. (first [now apply CONS | exact (CONS [] _ _ H)]).
-    + (first [now apply CONS | exact (CONS [] _ _ H)]).
-    + (first [now apply CONS | exact (CONS [] _ _ H)]).
+      rewrite Hs in H |- *. exact (CONS [] _ _ H OK).
+    + exact (CONS [] _ _ H OK).
+    + exact (CONS [] _ _ H OK).
   - apply is_lt_false in Elt as (N10 & N13 & N2028 & N2029).
     replace ((c =? 8232) || (c =? 8233)) with false
       by (symmetry; apply orb_false_iff; split; apply Z.eqb_neq; assumption).
@@ -133,39 +157,51 @@ Proof.
       replace (is_dig c) with false in H
         by (symmetry; unfold is_dig; apply andb_false_iff; right; apply Z.leb_gt; lia).
       destruct (single_escape c) eqn:Es; [apply single_escape_ascii in Es; lia|].
-      (first [now apply CONS | exact (CONS [] _ _ H)]).
+      now apply CONS.
     + replace (c =? 13) with false by (symmetry; apply Z.eqb_neq; assumption).
       replace (c =? 10) with false by (symmetry; apply Z.eqb_neq; assumption).
       destruct (c =? 120).
       { destruct r as [|a [|b r']]; try discriminate.
         destruct (hex_n [a; b]) as [w|] eqn:Eh; [|discriminate].
-        unfold write_rune. cbn [negb andb]. rewrite (hex_n_unit [a; b] w) by (simpl; auto; lia). (first [now apply CONS | exact (CONS [] _ _ H)]). }
+        pose proof (radix16_bound [a; b] 0 w Eh ltac:(lia)) as B. change (16 ^ Z.of_nat (length [a; b])) with 256 in B.
+        rewrite write_rune_small by lia. now apply CONS. }
       destruct (c =? 117).
       { destruct r as [|a [|b [|c' [|d r']]]]; try discriminate.
         destruct (hex_n [a; b; c'; d]) as [w|] eqn:Eh; [|discriminate].
-        unfold write_rune. cbn [negb andb]. rewrite (hex_n_unit [a; b; c'; d] w) by (simpl; auto; lia). (first [now apply CONS | exact (CONS [] _ _ H)]). }
+        pose proof (radix16_bound [a; b; c'; d] 0 w Eh ltac:(lia)) as B.
+        change (16 ^ Z.of_nat (length [a; b; c'; d])) with 65536 in B.
+        rewrite write_rune_ok; [now apply CONS|lia|exact (HEAD _ _ _ H OK)]. }
       destruct (is_oct c) eqn:Eo.
-      { pose proof (is_oct_range _ Eo) as Rc. unfold write_rune. cbn [negb andb orb].
-        destruct r as [|d1 r1]; [(first [now apply CONS | exact (CONS [] _ _ H)])|].
+      { pose proof (is_oct_range _ Eo) as Rc.
+        destruct r as [|d1 r1]; [now apply CONS|].
         destruct (is_oct d1) eqn:Eo1.
         - pose proof (is_oct_range _ Eo1) as R1.
           destruct r1 as [|d2 r2].
-          + rewrite small_unit by lia. (first [now apply CONS | exact (CONS [] _ _ H)]).
+          + rewrite write_rune_small by lia. now apply CONS.
           + destruct (is_oct d2) eqn:Eo2.
             * pose proof (is_oct_range _ Eo2) as R2. cbn [andb] in H |- *.
-              destruct (c <=? 51); rewrite small_unit by lia; (first [now apply CONS | exact (CONS [] _ _ H)]).
-            * cbn [andb] in H |- *. rewrite small_unit by lia. (first [now apply CONS | exact (CONS [] _ _ H)]).
-        - destruct (is_dig d1 && (c =? 48)); [discriminate|]. (first [now apply CONS | exact (CONS [] _ _ H)]). }
+              destruct (c <=? 51); rewrite write_rune_small by lia; now apply CONS.
+            * cbn [andb] in H |- *. rewrite write_rune_small by lia. now apply CONS.
+        - destruct (is_dig d1 && (c =? 48)); [discriminate|]. now apply CONS. }
       destruct (is_dig c); [discriminate|].
-      destruct (single_escape c); (first [now apply CONS | exact (CONS [] _ _ H)]).
+      destruct (single_escape c); now apply CONS.
 Qed.
 
-(* each switch is needed: the three deviations, with witnesses *)
+Lemma sv_model_is_spec n s v : sv_spec n s = Some v -> Forall nonsurr v -> sv_model n s = Some v.
+Proof. intros H F. apply sv_gen_is_spec; [exact H|now right]. Qed.
+
+Lemma sv_repaired_is_spec n s v : sv_spec n s = Some v -> sv_gen true n s = Some v.
+Proof. intros H. apply sv_gen_is_spec; [exact H|now left]. Qed.
+
+(* octal escapes of every length and backslash + LS/PS (repaired in /repo 96a7b64) are inside the
+   theorem: instances *)
+Lemma octal_escape_value : sv sv_model [92;52;48;48] = Some [32;48] /\ sv sv_model [92;55;55;55] = Some [63;55].
+Proof. vm_compute. auto. Qed.
+Lemma lsps_continuation_value : sv sv_model [97;92;8232;98] = Some [97;98] /\ sv sv_model [92;8233] = Some [].
+Proof. vm_compute. auto. Qed.
+
+(* the remaining deviation, with a witness *)
 Lemma surrogate_escape_refuted : exists s, sv sv_model s <> sv sv_spec s.
 Proof. (* 😀 *)
   exists [92;117;68;56;51;68;92;117;68;69;48;48]. vm_compute. discriminate.
 Qed.
-Lemma octal_escape_refuted : exists s, sv sv_model s <> sv sv_spec s.
-Proof. exists [92;52;48;48]. vm_compute. discriminate. Qed.        (* \400 *)
-Lemma lsps_continuation_refuted : exists s, sv sv_model s <> sv sv_spec s.
-Proof. exists [97;92;8232;98]. vm_compute. discriminate. Qed.      (* a \ LS b *)
